@@ -14,6 +14,9 @@ RULE = ('files are assembled from syntactically valid section headers (the '
         'after the main header, (ii) every legal path up to length P '
         'extended by each of the 24 ids, (iii) each id as the first line. '
         'Distinct by construction; non-trivial = sequence has >= 2 sections.')
+RULE += (
+         ' Process axes (DESIGN 2.8): 2 of 16 shards run under python -O, 4 '
+         'of 16 after a hostile warm-up of the library.')
 FLOOR = {'quick': 10000, 'thorough': 300000}
 REQUIRED_REACH = ['reader.py:']
 REQUIRED_COUNTERS = ['rejected_at_oracle_index', 'fully_accepted']
